@@ -29,8 +29,8 @@ class C10(frame.Findings, core.Check):
     pid = 'C10'
     title = 'A data-loader epoch is an exact partition of the rows'
     driver = 'drv_c07'
-    quick_cases = 1200
-    thorough_cases = 12000
+    quick_cases = 3000
+    thorough_cases = 24000
     rule = ('frames of C07 carrying a row-id column (0-7 rows, every storage kind) and small Datasets (1-7 rows, '
             'materialized or not, text-embedded columns through a stub embedder) x batch_size 1..n+1 / None / 0 x shuffle x '
             'drop_last x explicit samplers (arbitrary index lists incl. repeats and out-of-range entries) x explicit '
@@ -271,6 +271,24 @@ class C10(frame.Findings, core.Check):
         if case['src'] == 'frame':
             labs += [f"kind:{ft['kind']}" for ft in case['frame']['feats']]
         return labs
+
+    def extra_checks(self, rng, tier, report):
+        """exhaustive box: every (rows n, batch_size 1..n+1, drop_last) without shuffling, plus every rotation of the
+        rows as an explicit sampler, on a frame holding every storage kind"""
+        N = 9 if tier == 'thorough' else 6
+        cases = []
+        for n in range(0, N + 1):
+            spec = frame.fixed_frame(rng, n, ('numerical', 'timestamp', 'multicategorical', 'embedding', 'text_tokenized'),
+                                     rowid=True)
+            for bs in range(1, n + 2):
+                for dl in (False, True):
+                    base = {'seed': 0, 'src': 'frame', 'frame': spec, 'bs': bs, 'shuffle': False, 'drop_last': dl,
+                            'sampler': None, 'batch_sampler': None, 'collate': False}
+                    cases.append(base)
+                    if n:
+                        k = (bs * 7 + n) % n
+                        cases.append(dict(base, sampler=list(range(k, n)) + list(range(k))))
+        frame.run_box(self, cases, report, 'batch_box', {'rows': f'0..{N}', 'batch_size': '1..n+1', 'drop_last': 'both'})
 
 
 CHECK = C10()
